@@ -403,7 +403,7 @@ func run(r *core.Run) int {
 				}
 			}
 			// all critical subsets
-			for i, n := 0, r.Pick(60, 600); i < n; i++ {
+			for i, n := 0, r.Pick(60, 3000); i < n; i++ {
 				k := 1 + rng.IntN(6)
 				ex := genExtras(rng, mt, k)
 				if k <= 4 {
@@ -422,7 +422,7 @@ func run(r *core.Run) int {
 				}
 			}
 			// a critical label listed twice in crit is still one attribute
-			for i := 0; i < r.Pick(30, 200); i++ {
+			for i := 0; i < r.Pick(30, 1500); i++ {
 				ex := genExtras(rng, mt, 1+rng.IntN(3))
 				ex[0].Critical = true
 				cases = append(cases, &Case{MT: mt, Scheme: scheme, Extras: ex, CritAdd: []string{ex[0].Label}, Expiry: rng.IntN(2) == 0})
@@ -436,7 +436,7 @@ func run(r *core.Run) int {
 			if mt == sims.COSE {
 				phantoms = append(phantoms, "#99", "#-1", "#0")
 			}
-			for i := 0; i < r.Pick(40, 300); i++ {
+			for i := 0; i < r.Pick(40, 2000); i++ {
 				ex := genExtras(rng, mt, rng.IntN(4))
 				for j := range ex {
 					ex[j].Critical = rng.IntN(2) == 0
